@@ -546,6 +546,23 @@ static void check_mismatch(ctx_t *x, const uint8_t *frag, uint64_t flen, const c
     if (want && !inv) mon_viol("C10", "mismatching-fragment-validated", "%s: is_invalid_fragment returned 0 for a fragment whose payload checksum mismatches", what);
     if (!want && expect_valid_known && expect_valid && inv) mon_viol("C10", "intact-fragment-rejected", "%s: is_invalid_fragment rejects an intact fragment", what);
     mon_count(want ? "mismatching_cases" : "matching_cases", 1);
+    /* the same bytes as an older release stamped them (the writer version lies outside the header checksum; releases before
+     * 1.2.0 had no header seal but always wrote the payload checksum): the payload verdict does not depend on the stamp */
+    static long nth;
+    if (rc == 0 && nth++ % 3 == 0) {
+        static const uint32_t ov[] = { 0x010100, 0x010009, 0x0101ff, 0x010200, 0x010201, 0x010500, 0x000905 };
+        uint32_t V = ov[(nth / 3) % 7];
+        ref_put32(f + REF_OFF_LIBVER, V);
+        if (!ref_hdr_accept(f)) { free(f); return; }       /* (a header that was edited without a seal is only acceptable under its pre-1.2.0 stamp) */
+        fragment_metadata_t m2; memset(&m2, 0x33, sizeof m2);
+        int r2 = liberasurecode_get_fragment_metadata((char *)f, &m2);
+        mon_count("evaluations", 1); mon_count("mismatch_queries_with_older_writer_stamp", 1);
+        if (r2 != 0) mon_viol("C10", "metadata-query-failed", "%s, stamped by writer version 0x%06x: rc=%d", what, V, r2);
+        else if ((m2.chksum_mismatch != 0) != want) mon_viol("C10", want ? "mismatch-not-reported" : "false-mismatch", "%s, stamped by writer version 0x%06x: chksum_mismatch=%d, reference %d", what, V, m2.chksum_mismatch, want);
+        int inv2 = is_invalid_fragment(x->desc, (char *)f);
+        if (want && !inv2) mon_viol("C10", "mismatching-fragment-validated", "%s, stamped by writer version 0x%06x: is_invalid_fragment returned 0 although the payload checksum mismatches", what, V);
+        if (!want && expect_valid_known && expect_valid && inv2) mon_viol("C10", "intact-fragment-rejected", "%s, stamped by writer version 0x%06x: is_invalid_fragment rejects an intact fragment", what, V);
+    }
     free(f);
 }
 
